@@ -80,7 +80,7 @@ def coq_optbytes(h):
 AWKWARD = [0, 1, 23, 24, 255, 256]
 TEXTS = ["", "a", "example.com", "Alex Müller", "田中倫", "x" * 23, "y" * 24, "z" * 255, "w" * 256,
          "future.1password.com", "\U0001f511 key"]
-ALGS = [-7, -257, -8, -35, -36, -37, -47, -65535, 0, 1, 34]
+ALGS = [-7, -257, -8, -35, -36, -37, -47, -65535, -3, -25]      # negative only: see Serde.v on bignum algorithms
 TRANSPORTS = ["usb", "nfc", "ble", "hybrid", "internal"]
 
 
